@@ -6,6 +6,7 @@ package main
 
 import (
 	"fmt"
+	"go/token"
 	"go/types"
 	"reflect"
 	"sort"
@@ -211,6 +212,101 @@ func structuralConfig(ld *Loaded) []StructResult {
 		lf := callsOf(pkg.Func("loadFromFile"))
 		ok = ok && index(un, "github.com/spf13/viper.Unmarshal") >= 0 && index(lf, "github.com/spf13/viper.SetConfigFile") >= 0 && index(lf, "github.com/spf13/viper.ReadInConfig") > index(lf, "github.com/spf13/viper.SetConfigFile") && index(lf, "github.com/spf13/viper.GetString") >= 0
 		add("config/load", ok, "Load: loadFromFile (viper.GetString(config_file) -> SetConfigFile -> ReadInConfig) before unmarshallToAppConfig (viper.Unmarshal)")
+	}
+	// ---- config/defaults-order: what GetDefaultAppConfig reads is set before it is called ----
+	// The registered defaults are the documented ones only if every package variable the defaults are
+	// computed from (config.version) has been assigned by SetDefaults before GetDefaultAppConfig runs.
+	{
+		fn := pkg.Func("SetDefaults")
+		reads := map[*ssa.Global]bool{}
+		seen := map[*ssa.Function]bool{}
+		var walk func(f *ssa.Function)
+		walk = func(f *ssa.Function) {
+			if f == nil || seen[f] || f.Pkg != pkg {
+				return
+			}
+			seen[f] = true
+			for _, b := range f.Blocks {
+				for _, in := range b.Instrs {
+					if u, isU := in.(*ssa.UnOp); isU && u.Op == token.MUL {
+						if g, isG := u.X.(*ssa.Global); isG {
+							reads[g] = true
+						}
+					}
+					if c, isC := in.(ssa.CallInstruction); isC {
+						walk(c.Common().StaticCallee())
+					}
+				}
+			}
+		}
+		walk(pkg.Func("GetDefaultAppConfig"))
+		ok := fn != nil
+		var notes []string
+		if ok {
+			var call ssa.Instruction
+			for _, b := range fn.Blocks {
+				for _, in := range b.Instrs {
+					if c, isC := in.(ssa.CallInstruction); isC && calleeName(c.Common()) == "config.GetDefaultAppConfig" && call == nil {
+						call = in
+					}
+				}
+			}
+			pos := func(in ssa.Instruction) int {
+				for i, x := range in.Block().Instrs {
+					if x == in {
+						return i
+					}
+				}
+				return -1
+			}
+			for _, b := range fn.Blocks {
+				for _, in := range b.Instrs {
+					st, isSt := in.(*ssa.Store)
+					if !isSt {
+						continue
+					}
+					g, isG := st.Addr.(*ssa.Global)
+					if !isG || !reads[g] {
+						continue
+					}
+					before := call != nil && ((st.Block() == call.Block() && pos(st) < pos(call)) || (st.Block() != call.Block() && st.Block().Dominates(call.Block())))
+					notes = append(notes, fmt.Sprintf("%s assigned before GetDefaultAppConfig()=%v", g.Name(), before))
+					if !before {
+						ok = false
+					}
+				}
+			}
+			if call == nil {
+				ok = false
+			}
+		}
+		sort.Strings(notes)
+		add("config/defaults-order", ok, "package variables read by GetDefaultAppConfig and assigned by SetDefaults: "+strings.Join(notes, "; "))
+	}
+	// ---- config/decode-hooks: viper's default decode hooks stay in force ----
+	// Duration-typed keys (p2p.ban_duration, ...) come from env and file as strings: viper.Unmarshal decodes
+	// them only through its default hooks. viper.DecodeHook(h) REPLACES those; it is acceptable only if h
+	// composes mapstructure.StringToTimeDurationHookFunc and StringToSliceHookFunc again.
+	{
+		ok := true
+		detail := "viper.Unmarshal is called without a DecodeHook option (default hooks in force)"
+		for _, m := range pkg.Members {
+			f, isF := m.(*ssa.Function)
+			if !isF {
+				continue
+			}
+			cs := callsOf(f)
+			if index(cs, "github.com/spf13/viper.DecodeHook") < 0 {
+				continue
+			}
+			if index(cs, "github.com/mitchellh/mapstructure.StringToTimeDurationHookFunc") >= 0 && index(cs, "github.com/mitchellh/mapstructure.StringToSliceHookFunc") >= 0 && index(cs, "github.com/mitchellh/mapstructure.ComposeDecodeHookFunc") >= 0 {
+				detail = f.Name() + " passes viper.DecodeHook a composition that includes the default string->duration and string->slice hooks"
+				continue
+			}
+			ok = false
+			detail = f.Name() + " passes viper.DecodeHook(...) without composing the default string->duration / string->slice hooks: keys of type time.Duration no longer decode from env or file"
+		}
+		add("config/decode-hooks", ok, detail)
 	}
 	return out
 }
